@@ -192,6 +192,7 @@ package main
 //@ ensures result == holds(self, a0, a1)
 
 //@ func authOnlyAuthorize
+//@ nilable s
 //@ safety
 //@ prop C08
 //@ loop 0 invariant[all-earlier-constraints-held] rangeindex >= -1 && rangeindex < 3 && forall j int :: 0 <= j && j <= rangeindex ==> holds(constraints[j], req, s)
